@@ -353,6 +353,8 @@ fn nested_too_deep(line: &str) -> bool {
                 }
                 ';' => break,
                 '/' if previous == '/' => break,
+                // a comment starts here as well, whatever it contains
+                '*' if previous == '/' => break,
                 '(' => {
                     depth += 1;
                     run += 1;
